@@ -12,10 +12,10 @@ Definition body_eqb_isnotnull (b : body) : bool := match b with BIsNotNull => tr
 
 (* every descriptor named "not" is strict and has the modelled body; likewise the others *)
 Definition row_ok (d : fdesc) : bool :=
-  (if name_is d "not" then fd_strict d && body_eqb_not (body_of d) else true) &&
-  (if name_is d "is null" then negb (fd_strict d) && body_eqb_isnull (body_of d) else true) &&
-  (if name_is d "is not null" then negb (fd_strict d) && body_eqb_isnotnull (body_of d) else true) &&
-  (if is_cmp_name d then fd_strict d && is_cmp_body (body_of d) else true).
+  (if name_is d "not" then fd_strict d && body_eqb_not (body_of no_oracle d) else true) &&
+  (if name_is d "is null" then negb (fd_strict d) && body_eqb_isnull (body_of no_oracle d) else true) &&
+  (if name_is d "is not null" then negb (fd_strict d) && body_eqb_isnotnull (body_of no_oracle d) else true) &&
+  (if is_cmp_name d then fd_strict d && is_cmp_body (body_of no_oracle d) else true).
 
 Lemma table_rows_ok : forallb row_ok function_table = true.
 Proof. vm_compute. reflexivity. Qed.
@@ -32,72 +32,75 @@ Proof. intros H. pose proof table_rows_ok as T. rewrite forallb_forall in T. app
 Lemma name_is_eq d s : fd_name d = s -> name_is d s = true.
 Proof. intros <-. unfold name_is. apply String.eqb_refl. Qed.
 
-Lemma tbl_not d : In d function_table -> fd_name d = "not" -> fd_strict d = true /\ body_of d = BNot.
+Lemma tbl_not orc d : In d function_table -> fd_name d = "not" -> fd_strict d = true /\ body_of orc d = BNot.
 Proof.
   intros Hin Hn. pose proof (row_ok_in d Hin) as R. unfold row_ok in R.
   rewrite (name_is_eq d _ Hn) in R.
   apply andb_prop in R. destruct R as [R _]. apply andb_prop in R. destruct R as [R _].
   apply andb_prop in R. destruct R as [R _]. apply andb_prop in R. destruct R as [R1 R2].
-  split; [assumption|]. destruct (body_of d); try discriminate R2; reflexivity.
+  split; [assumption|]. apply body_of_concrete; [|intros ks n f; discriminate]. destruct (body_of no_oracle d); try discriminate R2; reflexivity.
 Qed.
 
-Lemma tbl_is_null d : In d function_table -> fd_name d = "is null" -> fd_strict d = false /\ body_of d = BIsNull.
+Lemma tbl_is_null orc d : In d function_table -> fd_name d = "is null" -> fd_strict d = false /\ body_of orc d = BIsNull.
 Proof.
   intros Hin Hn. pose proof (row_ok_in d Hin) as R. unfold row_ok in R.
   rewrite (name_is_eq d _ Hn) in R.
   apply andb_prop in R. destruct R as [R _]. apply andb_prop in R. destruct R as [R _].
   apply andb_prop in R. destruct R as [_ R]. apply andb_prop in R. destruct R as [R1 R2].
-  split; [destruct (fd_strict d); [discriminate R1|reflexivity]|]. destruct (body_of d); try discriminate R2; reflexivity.
+  split; [destruct (fd_strict d); [discriminate R1|reflexivity]|]. apply body_of_concrete; [|intros ks n f; discriminate]. destruct (body_of no_oracle d); try discriminate R2; reflexivity.
 Qed.
 
-Lemma tbl_is_not_null d : In d function_table -> fd_name d = "is not null" -> fd_strict d = false /\ body_of d = BIsNotNull.
+Lemma tbl_is_not_null orc d : In d function_table -> fd_name d = "is not null" -> fd_strict d = false /\ body_of orc d = BIsNotNull.
 Proof.
   intros Hin Hn. pose proof (row_ok_in d Hin) as R. unfold row_ok in R.
   rewrite (name_is_eq d _ Hn) in R.
   apply andb_prop in R. destruct R as [R _]. apply andb_prop in R. destruct R as [_ R].
   apply andb_prop in R. destruct R as [R1 R2].
-  split; [destruct (fd_strict d); [discriminate R1|reflexivity]|]. destruct (body_of d); try discriminate R2; reflexivity.
+  split; [destruct (fd_strict d); [discriminate R1|reflexivity]|]. apply body_of_concrete; [|intros ks n f; discriminate]. destruct (body_of no_oracle d); try discriminate R2; reflexivity.
 Qed.
 
-Lemma tbl_cmp d : In d function_table -> In (fd_name d) cmp_names -> fd_strict d = true /\ is_cmp_body (body_of d) = true.
+Lemma tbl_cmp orc d : In d function_table -> In (fd_name d) cmp_names -> fd_strict d = true /\ is_cmp_body (body_of orc d) = true.
 Proof.
   intros Hin Hn. pose proof (row_ok_in d Hin) as R. unfold row_ok in R.
   assert (C : is_cmp_name d = true).
   { unfold is_cmp_name. apply existsb_exists. exists (fd_name d). split; [assumption|apply String.eqb_refl]. }
-  rewrite C in R. apply andb_prop in R. destruct R as [_ R]. apply andb_prop in R. exact R.
+  rewrite C in R. apply andb_prop in R. destruct R as [_ R]. apply andb_prop in R. destruct R as [R1 R2].
+  split; [exact R1|].
+  destruct (body_of no_oracle d) eqn:B; try discriminate R2;
+    rewrite (body_of_concrete orc d _ B); try reflexivity; intros ks0 n0 f0; discriminate.
 Qed.
 
 (* ---- the C11 statements over the table ---- *)
-Theorem table_not_kleene t d ctx a v :
+Theorem table_not_kleene orc t d ctx a v :
   In d function_table -> fd_name d = "not" ->
-  peval ctx a = Ok v -> is_tv v = true -> has_type v (ptype a) = true ->
-  peval ctx (PCall t d [a]) = Ok (tv_val (k_not (to_tv v))).
-Proof. intros Hin Hn. destruct (tbl_not d Hin Hn). apply not_kleene; assumption. Qed.
+  peval orc ctx a = Ok v -> is_tv v = true -> has_type v (ptype a) = true ->
+  peval orc ctx (PCall t d [a]) = Ok (tv_val (k_not (to_tv v))).
+Proof. intros Hin Hn. destruct (tbl_not orc d Hin Hn). apply not_kleene; assumption. Qed.
 
-Theorem table_strict_null t d ctx args vs :
+Theorem table_strict_null orc t d ctx args vs :
   In d function_table -> fd_strict d = true ->
-  pevals ctx args = Ok vs -> Forall2 (fun v a => has_type v (ptype a) = true) vs args -> In VNull vs ->
-  peval ctx (PCall t d args) = Ok VNull.
+  pevals orc ctx args = Ok vs -> Forall2 (fun v a => has_type v (ptype a) = true) vs args -> In VNull vs ->
+  peval orc ctx (PCall t d args) = Ok VNull.
 Proof. intros _. apply strict_null. Qed.
 
-Theorem table_cmp_null t d ctx args vs :
+Theorem table_cmp_null orc t d ctx args vs :
   In d function_table -> In (fd_name d) cmp_names ->
-  pevals ctx args = Ok vs -> Forall2 (fun v a => has_type v (ptype a) = true) vs args -> In VNull vs ->
-  peval ctx (PCall t d args) = Ok VNull.
-Proof. intros Hin Hn. destruct (tbl_cmp d Hin Hn). apply strict_null; assumption. Qed.
+  pevals orc ctx args = Ok vs -> Forall2 (fun v a => has_type v (ptype a) = true) vs args -> In VNull vs ->
+  peval orc ctx (PCall t d args) = Ok VNull.
+Proof. intros Hin Hn. destruct (tbl_cmp orc d Hin Hn). apply strict_null; assumption. Qed.
 
-Theorem table_cmp_non_null t d ctx a b x y :
+Theorem table_cmp_non_null orc t d ctx a b x y :
   In d function_table -> In (fd_name d) cmp_names ->
-  pevals ctx [a; b] = Ok [x; y] -> is_null x = false -> is_null y = false ->
-  exists r, peval ctx (PCall t d [a; b]) = Ok (VBool r).
-Proof. intros Hin Hn. destruct (tbl_cmp d Hin Hn). apply cmp_non_null; assumption. Qed.
+  pevals orc ctx [a; b] = Ok [x; y] -> is_null x = false -> is_null y = false ->
+  exists r, peval orc ctx (PCall t d [a; b]) = Ok (VBool r).
+Proof. intros Hin Hn. destruct (tbl_cmp orc d Hin Hn). apply cmp_non_null; assumption. Qed.
 
-Theorem table_is_null t d ctx a v :
-  In d function_table -> fd_name d = "is null" -> peval ctx a = Ok v ->
-  peval ctx (PCall t d [a]) = Ok (VBool (is_null v)).
-Proof. intros Hin Hn. destruct (tbl_is_null d Hin Hn). apply is_null_total; assumption. Qed.
+Theorem table_is_null orc t d ctx a v :
+  In d function_table -> fd_name d = "is null" -> peval orc ctx a = Ok v ->
+  peval orc ctx (PCall t d [a]) = Ok (VBool (is_null v)).
+Proof. intros Hin Hn. destruct (tbl_is_null orc d Hin Hn). apply is_null_total; assumption. Qed.
 
-Theorem table_is_not_null t d ctx a v :
-  In d function_table -> fd_name d = "is not null" -> peval ctx a = Ok v ->
-  peval ctx (PCall t d [a]) = Ok (VBool (negb (is_null v))).
-Proof. intros Hin Hn. destruct (tbl_is_not_null d Hin Hn). apply is_not_null_total; assumption. Qed.
+Theorem table_is_not_null orc t d ctx a v :
+  In d function_table -> fd_name d = "is not null" -> peval orc ctx a = Ok v ->
+  peval orc ctx (PCall t d [a]) = Ok (VBool (negb (is_null v))).
+Proof. intros Hin Hn. destruct (tbl_is_not_null orc d Hin Hn). apply is_not_null_total; assumption. Qed.
